@@ -482,6 +482,7 @@ class HashRule(ABC):
                         symbol=parts[i],
                         first_level=first_level,
                         ref_is_global_table=False,
+                        qualified_symbol=symbol_part + "." + parts[i],
                     )
                 )
                 return
@@ -550,10 +551,15 @@ class UndefinedSymbolHashRule(HashRule):
         symbol: str,
         first_level: bool,
         ref_is_global_table: bool,
+        qualified_symbol: str = None,
     ):
+        # The key identifies the whole dotted path (`a.x` and `b.x` and a bare `x` are three
+        # different undefined symbols of one function); `symbol` is the attribute that is
+        # looked up on `ref` to find out whether it has been defined since.
+        self.qualified_symbol = qualified_symbol or symbol
         # noinspection PyUnresolvedReferences
         super().__init__(
-            key="UndefinedSymbol;{};{}".format(parent_symbol, symbol),
+            key="UndefinedSymbol;{};{}".format(parent_symbol, self.qualified_symbol),
             parent_symbol=parent_symbol,
             symbol=symbol,
             first_level=first_level,
@@ -568,6 +574,7 @@ class UndefinedSymbolHashRule(HashRule):
             self.symbol,
             self.first_level,
             self.ref_is_global_table,
+            self.qualified_symbol,
         )
 
     def collect_transitive_dependencies(
